@@ -219,6 +219,18 @@ def sessions_task(name, sessions):
             st.inc('cut')
             continue
         data = ''.join(l + '\n' for l in lines)
+        form = name.rsplit('+', 1)[1] if '+form-' in name else ''
+        if form:
+            # the same session with the program lines written differently (keyword lines are left as they are):
+            # CR LF line ends, blanks / tabs around the commands, no line break after the last line
+            kw = ('clear', 'help', 'exit')
+            if form == 'form-crlf':
+                data = ''.join((l + '\n') if l.strip() in kw else (l + '\r\n') for l in lines)
+            elif form == 'form-blanks':
+                data = ''.join((l + '\n') if l.strip() in kw else ('\t ' + l + ' \t\n') for l in lines)
+            elif form == 'form-nofinal' and lines and lines[-1] != '':
+                data = '\n'.join(lines)       # (an empty last line without a line break is no line at all)
+            st.inc('sessions_other_line_forms')
         color = name.endswith('+color')
         if color:
             r = sh.child('repl', hx(data), 10, 'always')
@@ -410,7 +422,11 @@ def run_c12(tier):
     for i in range(0, len(lf), 100):
         tasks.append(('incr', [], [], 0, ['ab\nc'], lf[i:i + 100]))
     # the same sessions with `--color always` (every 4th): colour sequences removed, the text must be the same
-    tasks += [('sessions', t[1] + '+color', t[2][::4]) for t in tasks if t[0] == 'sessions']
+    base = [t for t in tasks if t[0] == 'sessions']
+    tasks += [('sessions', t[1] + '+color', t[2][::4]) for t in base]
+    # ... and with the program lines written in other forms (every 6th, a different sixth per form)
+    for k, form in enumerate(('form-crlf', 'form-blanks', 'form-nofinal')):
+        tasks += [('sessions', t[1] + '+' + form, t[2][k + 1::6]) for t in base if len(t[2]) > k + 1]
     collect(st, pmap(_task, [(t,) for t in tasks]))
     cov = {
         'states': sum(v.get('commands', 0) for v in info.values()),
@@ -424,7 +440,8 @@ def run_c12(tier):
                 'all programs over A20 up to the length bound.',
         'scope': {'programs': info, 'noise_lines': NOISE, 'incr_alphabet': alpha, 'incr_max_len': n,
                   'incr_runs': st.n.get('incr_runs', 0), 'sessions': st.n.get('sessions', 0),
-                  'sessions_repeated_with_colour_always': st.n.get('sessions_with_colour', 0), 'cut': st.n.get('cut', 0)},
+                  'sessions_repeated_with_colour_always': st.n.get('sessions_with_colour', 0),
+                  'sessions_repeated_in_other_line_forms': st.n.get('sessions_other_line_forms', 0), 'cut': st.n.get('cut', 0)},
         'distinct_outcomes': {'session_status': sorted(st.sets.get('status', ())), 'incr_ends': sorted(st.sets.get('ends', ()))},
         'samples': [['형 흣....💕 형. 하앙...', '흣. 흑...', '흣....!💕'], ['형.', 'clear', '형.']],
     }
